@@ -92,10 +92,13 @@ def _transform_mp_worker(queue, done_event, pio_in, pio_out, make_buf, do_one):
     buf = make_buf()
 
     while True:
+        # Sample the flag before receiving; see `pyramid._mp_visit_worker`.
+        done = done_event.is_set()
+
         try:
             pos = queue.get(True, timeout=1)
         except Empty:
-            if done_event.is_set():
+            if done:
                 break
             continue
 
